@@ -179,7 +179,59 @@ def shrink(case):
         yield c
 
 
-from .props_common import tuple_box, query, full_state  # noqa: E402
+from .props_common import tuple_box, query, full_state, decode  # noqa: E402
+
+
+def check_decode_first(case, res):
+    """route decoding as the FIRST query on an object (fresh, or just reconfigured after an earlier query): a solution obtained
+    elsewhere (exhaustive search on a twin) must decode to the same routes as on an object that was queried before, and twice the same"""
+    form = case["form"]
+    if form == "path":
+        return
+    ref, _ = FU.build_form(case, with_heur=False)
+    try:
+        n = int(ref.get_num_variables())
+        if n == 0 or n > 12:
+            return
+        B = VU.Brute(VU.impl_data(ref))
+    except Exception:  # noqa
+        return
+    feas = np.nonzero(B.feasible)[0]
+    if len(feas) == 0:
+        return
+    res.features.append("decode-first:checked")
+    for i in list(feas[:2]) + list(feas[-1:]):
+        x = [int(t) for t in B.X[int(i)]]
+        want = decode(ref, x)
+        fresh, _ = FU.build_form(case, with_heur=False)
+        first, second = decode(fresh, x), decode(fresh, x)
+        if first != want or second != want:
+            res.fail(f"{form}:decode-first", f"get_routes({x}) as the first query on a fresh object gives {core._short(first, 120)}, asked again "
+                                             f"{core._short(second, 120)}; on an object whose size was asked before: {core._short(want, 120)}")
+            return
+        # ... and right after a reconfiguration that follows an earlier query
+        variants = []
+        if form == "seq":
+            L, V = int(ref.max_sequence_length), int(ref.max_vehicles)
+            variants = [(dict(case, L=L + 1), lambda o: o.set_max_sequence_length(L), f"set_max_sequence_length({L}) after a size query at {L + 1}"),
+                        (dict(case, V=V + 1), lambda o: o.set_max_vehicles(V), f"set_max_vehicles({V}) after a size query at {V + 1}")]
+        elif form == "arc" and len(case.get("grid", [])) >= 2:
+            g = list(case["grid"])
+            variants = [(dict(case, grid=g[:-1]), lambda o: o.add_time_points([VU.val(t) for t in g]), "add_time_points(full grid) after a size query on a shorter grid")]     # (add_time_points REPLACES the grid)
+        for c2, reconf, what in variants:
+            try:
+                o2, _ = FU.build_form(c2, with_heur=False)
+                o2.get_num_variables()
+                reconf(o2)
+            except Exception:  # noqa
+                continue
+            if VU.graph_of(o2) != VU.graph_of(ref):
+                continue
+            got = decode(o2, x)
+            if got != want:
+                res.fail(f"{form}:decode-after-reconfiguration", f"get_routes({x}) right after {what} gives {core._short(got, 120)}; on an object "
+                                                                 f"configured that way from the start: {core._short(want, 120)}")
+                return
 
 
 MUTATORS = ("tp", "setV", "setL", "addarc", "addnode", "setdepot")
@@ -535,6 +587,7 @@ def run_case(case, drv):
                 break
         if res.failures:
             break
+    check_decode_first(case, res)
     res.nontrivial = query_before and changed
     if not case.get("mutators"):
         correspond_cache(res, drv, case)
